@@ -9,15 +9,16 @@ LEVEL = "exploration"
 RULE = ("Base trees covering every level (feature > scenario / outline with two examples blocks / rule > scenario, outline; "
         "feature and rule backgrounds) with one tag slot per level (feature, rule, scenario, outline, each examples block) and "
         "the parametrised outline tag @<tg> fed from the rows; every assignment of {none, t, u} to the slots with <= 2 (quick) "
-        "/ <= 3 (thorough) non-empty slots x 10 tag expressions in both dialects {t, not t, u, t and u, t or u, not (t or u), "
-        "t and not u, t*, -t, 't,u'} x show_skipped on/off x dry-run on/off, all steps passing, plus one failing step in every "
+        "/ <= 3 (thorough) non-empty slots x 14 tag expressions in both dialects {t, not t, u, t and u, t or u, not (t or u), "
+        "t and not u, t*, -t, 't,u', and four forms with two --tags arguments (AND-ed)} x show_skipped on/off x dry-run on/off, all steps passing, plus one failing step in every "
         "scenario position in turn (default switches). Oracle: executed set (call log of step functions; scenario/step hooks) == "
         "set selected by an independent evaluator over effective tags; de-selected scenarios and all their steps skipped; "
         "containers skipped iff nothing in them is selected. Non-trivial = distinct case in which at least one scenario is "
         "selected and at least one is de-selected.")
 ASSUMPTIONS = ["feature/rule hooks of a container whose own tags match but which contains no selected scenario are not checked (statement silent)"]
 
-EXPRS = ("t", "not t", "u", "t and u", "t or u", "not (t or u)", "t and not u", "t*", "-t", "t,u")
+EXPRS = ("t", "not t", "u", "t and u", "t or u", "not (t or u)", "t and not u", "t*", "-t", "t,u",
+         "t && not u", "t && -u", "t,u && -u", "t or u && not t")      # "x && y" = two --tags arguments
 
 
 def bases(tier):
@@ -73,7 +74,7 @@ def run_case(case):
     if not obs["escaped"]:
         executed = set(p for p, sid in obs["calls"])
         if not dry and executed != set(sel):
-            v.append(({"subcheck": "selection", "clause": "executed-set", "dialect": "v1" if expr in ("-t", "t,u") else "v2",
+            v.append(({"subcheck": "selection", "clause": "executed-set", "dialect": "v1" if ("-" in expr or "," in expr) else "v2",
                        "kind": "extra" if executed - set(sel) else "missing"},
                       "expression %r: executed %r, selected by the formula %r" % (expr, sorted(executed), sorted(sel))))
         for name, r in obs["hooks"]:
